@@ -209,8 +209,29 @@ def make_objects(strata, con_specs, cvr_specs, route="from_dict", rng=None):
     an omitted bound is the constructor's documented default 0)."""
     A = lib()
     kind = rep_kind(rng)
-    audit = A.Audit.from_dict({"strata": {f"s{i}": {"use_style": rep(kind, "bool", us), "max_cards": rep(kind, "int", mc)}
-                                          for i, (us, mc) in enumerate(strata)}})
+    # The bound in force is the STRATUM's max_cards (make_phantoms / from_cvr_list read stratum.max_cards; C08: "the stratum's
+    # card bound").  The Audit object also has a top-level max_cards attribute: absent, equal, or a different (stale) number;
+    # and the stratum's bound is sometimes revised in place after construction (e.g. 8 -> 10).
+    ad = {"strata": {f"s{i}": {"use_style": rep(kind, "bool", us), "max_cards": rep(kind, "int", mc)}
+                     for i, (us, mc) in enumerate(strata)}}
+    top, revised = "absent", False
+    if rng is not None and strata:
+        r = rng.random()
+        mc0 = strata[0][1]
+        if r < 0.3:
+            top, ad["max_cards"] = "equal", rep(kind, "int", mc0)
+        elif r < 0.65:
+            top, ad["max_cards"] = "different", rep(kind, "int", (mc0 or 0) + rng.choice([-2, -1, 1, 2, 3, 10]))
+        if rng.random() < 0.3 and mc0 is not None:
+            revised = True
+            for v in ad["strata"].values():
+                v["max_cards"] = rep(kind, "int", max(0, mc0 - rng.choice([1, 2, 5])))      # the bound first announced
+            if top == "equal" and rng.random() < 0.5:
+                ad["max_cards"] = rep(kind, "int", max(0, mc0 - 2))                           # top-level copy not revised
+    audit = A.Audit.from_dict(ad)
+    if revised:
+        for st, (us, mc) in zip(audit.strata.values(), strata):
+            st.max_cards = rep(kind, "int", mc)                                               # revised in place
     dicts = {}
     for key, cid, cards in con_specs:
         d = {"id": cid, "name": str(cid), "candidates": ["Alice", "Bob"], "winner": ["Alice"], "n_winners": rep(kind, "int", 1)}
@@ -227,7 +248,8 @@ def make_objects(strata, con_specs, cvr_specs, route="from_dict", rng=None):
     cvr_list = build_cvrs(cvr_specs)
     for c in cvr_list:                                  # flags in the world's representation
         c.phantom, c.pool = rep(kind, "bool", c.phantom), rep(kind, "bool", c.pool)
-    audit._rep = {k: v.__name__ for k, v in kind.items()}
+    audit._rep = dict({k: v.__name__ for k, v in kind.items()}, audit_max_cards=pyint(getattr(audit, "max_cards", None)),
+                      audit_max_cards_is=top, stratum_bound_revised_in_place=revised)
     return audit, contests, cvr_list, asked
 
 
